@@ -284,6 +284,14 @@ func (c *Client) PublishMessage(msg *packet.Message) (GenericFuture, error) {
 	// store future
 	c.futureStore.Put(publish.ID, publishFuture)
 
+	// check state again, as a concurrent cleanup might already have cleared
+	// the store and would otherwise leave the future unresolved
+	if atomic.LoadUint32(&c.state) != clientConnected {
+		c.futureStore.Delete(publish.ID)
+		publishFuture.Cancel(nil)
+		return nil, ErrClientNotConnected
+	}
+
 	// store packet if at least qos 1
 	if msg.QOS > 0 {
 		err := c.Session.SavePacket(session.Outgoing, publish)
@@ -340,6 +348,14 @@ func (c *Client) SubscribeMultiple(subscriptions []packet.Subscription) (Subscri
 	// store future
 	c.futureStore.Put(subscribe.ID, subFuture)
 
+	// check state again, as a concurrent cleanup might already have cleared
+	// the store and would otherwise leave the future unresolved
+	if atomic.LoadUint32(&c.state) != clientConnected {
+		c.futureStore.Delete(subscribe.ID)
+		subFuture.Cancel(nil)
+		return nil, ErrClientNotConnected
+	}
+
 	// send packet
 	err := c.send(subscribe, true)
 	if err != nil {
@@ -382,6 +398,14 @@ func (c *Client) UnsubscribeMultiple(topics []string) (GenericFuture, error) {
 
 	// store future
 	c.futureStore.Put(unsubscribe.ID, unsubscribeFuture)
+
+	// check state again, as a concurrent cleanup might already have cleared
+	// the store and would otherwise leave the future unresolved
+	if atomic.LoadUint32(&c.state) != clientConnected {
+		c.futureStore.Delete(unsubscribe.ID)
+		unsubscribeFuture.Cancel(nil)
+		return nil, ErrClientNotConnected
+	}
 
 	// send packet
 	err := c.send(unsubscribe, true)
